@@ -152,6 +152,23 @@ def as_func(func, node):
     return fi
 
 
+class _FoldConstantConditions(ast.NodeTransformer):
+    """conditional expressions and `if` statements whose test is a literal True / False (after a loop variable was replaced by a row of
+    a written-out table) are replaced by the branch that is taken"""
+
+    def visit_IfExp(self, node):
+        self.generic_visit(node)
+        if isinstance(node.test, ast.Constant) and isinstance(node.test.value, bool):
+            return node.body if node.test.value else node.orelse
+        return node
+
+    def visit_If(self, node):
+        self.generic_visit(node)
+        if isinstance(node.test, ast.Constant) and isinstance(node.test.value, bool):
+            return (node.body if node.test.value else node.orelse) or [ast.copy_location(ast.Pass(), node)]
+        return node
+
+
 def unroll_literal_loops(funcnode, max_elems=8):
     """A copy of the function in which `for x in (A, B): body` - the iterable a tuple / list written out, directly or as a
     local assigned once - is replaced by body[x := A]; body[x := B].  Only loops whose body neither assigns x nor
@@ -199,7 +216,8 @@ def unroll_literal_loops(funcnode, max_elems=8):
                             st2 = copy.deepcopy(st)
                             for nm, v in zip(tnames, vals):
                                 st2 = Sub(nm, v).visit(st2)
-                            out.append(st2)
+                            st2 = _FoldConstantConditions().visit(st2)
+                            out.extend(st2 if isinstance(st2, list) else [st2])
                     count[0] += 1
                     continue
             out.append(s)
